@@ -54,6 +54,11 @@ CHECKS = {
     technique="TLA+ environment machine for landscape arithmetic (slope merge as coded, exact rationals) model-checked by TLC against pointwise linear combination with OperandsUnchanged as an action property; recorded operation histories on real objects validated by TLC as functions",
     text="TLC checks PointwiseInv, WellFormed and OperandsUnchanged for every sequence of <=2 (thorough 3) add/sub/neg/scalar operations over a pool of base landscapes with results fed back. Seeded programs of 3..9 operations over exact and grid landscapes (from diagrams or arbitrary zero-ended critical points / values; coincident abscissae, sign changes, unequal depth counts; scalars incl. negatives and fractions; snap_pl, lc_approx, average_approx; mismatched degrees/grids that must raise) run on the real classes; after every operation every live object is re-read and TLC requires all earlier objects unchanged and each result equal to the stated combination of its operands at every depth and at every tick of the union of breakpoints (re-sampling: at the new grid nodes).",
     note="Functions zero at both ends with integer abscissae and dyadic slopes/scalars so results decode exactly (denominator <= 64, otherwise the program is skipped and counted). Operand identity is a 31-bit digest of the full content."),
+ "C10": dict(
+    cat="model_checking", ref="DESIGN.md 5/C10",
+    technique="TLA+ exact segment integrals of |f|^p (rational arithmetic) with their consistency identities and the stability inequality on the definitions model-checked by TLC; recorded p-norms / sup-norms of real landscape objects validated by TLC in fixed-point arithmetic against the integral of the observed critical points",
+    text="TLC checks additivity under splitting at every interior tick, agreement of the one-signed and sign-crossing branches, the trapezoid rule and symmetries for all segments within the constants (|y|<=3..4, L<=3..4, p<=4..6), and sup|lambda_k(X)-lambda_k(Y)| <= bottleneck on the definitional operators for all pairs of <=2 bars. Exact and grid landscapes, differences and linear combinations produced by the real operators (sign changes), arbitrary zero-ended critical points and perfect-square ordinates are run through p_norm (p = 1..6 and 1.5, 2.5, 3.5) and sup_norm under 4 exact embeddings; TLC recomputes sum of integrals of |f|^p in 1e-16 fixed point from the observed critical points and requires agreement to 1e-9, finiteness, sup = max|y|, and the stability law with both sides observed.",
+    note="Real p outside {1.5, 2.5, 3.5} on perfect-square ordinates is not decided. Stability-law inputs on which the exact sweep fires its repeated-bar shortcut (C03 known finding) are excluded by the as-coded sweep model. The genuine defect found (signed power) is repaired in /repo and recorded as fixed."),
 }
 
 NOT_APPLICABLE_REASON = "check under construction in this round; see DESIGN.md section 5"
